@@ -12,6 +12,9 @@ the two coincide up to the revert code. `unsupported`/`outOfFuel` answers of the
 `why=dead-trap-eliminated` is printed only when the prescribed outcome is missed but each build behaves like a
 run of the semantics in which the first k (≤ 8) trapping 64/256-bit `+ - *` or `/ %` whose result is never
 observed were deleted (the real compiler deletes unused trapping instructions in both profiles).
+`why=release-wrong-aggregate-param` is printed only for the kinds `prog-aggsel` / `prog-f4` (programs the generator
+marks as containing a non-inlined function selecting among by-value aggregate parameters of one type) when the debug
+build is exactly the prescribed run and the release build has the prescribed status and payload sizes.
 `why=dyn-oob-no-revert` is printed only when the model prescribes a revert for an out-of-bounds dynamic array
 index and the implementation returned normally having logged exactly one more payload.
 -/
@@ -35,6 +38,13 @@ def lenientMatch (p : Prog) (o : Obs) : Bool :=
     match runSkip p FUEL (k + 1) with
     | .invalid | .outOfFuel | .stuck | .unsupported => false
     | m => let (pr, _, oobNoRevert) := judge m o; pr || oobNoRevert
+
+/-- the release run has the prescribed status, number of payloads and payload sizes: only payload contents differ
+(signature of finding F4: a non-inlined function returns the wrong by-value aggregate parameter in release) -/
+def sameShape (m : Outcome) (o : Obs) : Bool :=
+  match m with
+  | .ok l => !o.reverted && decide (o.logs.map List.length = l.map List.length)
+  | _ => false
 
 def sizeClass (n : Nat) : String :=
   if n = 0 then "0" else if n ≤ 2 then "1-2" else if n ≤ 8 then "3-8" else "9+"
@@ -60,6 +70,7 @@ def answerProg (kind : String) (rest : List String) (itoks : List String) : Stri
         let (pr, ar, wr) := judge m r
         let why := if wd || wr then " why=dyn-oob-no-revert" else
           if pd && pr then "" else
+          if (kind = "prog-aggsel" || kind = "prog-f4") && pd && ad && sameShape m r then " why=release-wrong-aggregate-param" else
           if (pd || lenientMatch p d) && (pr || lenientMatch p r) then " why=dead-trap-eliminated" else
           if !pd && !pr then " why=both-differ" else if !pd then " why=debug-differs" else " why=release-differs"
         s!"{ms} agree={b01 (ad && ar)} prop={b01 (pd && pr)} skip=0 cls={cls} kind={kind} nlogs={sizeClass (outcomeLogs m).length}{why}"
@@ -83,9 +94,9 @@ def answer (line : String) : String :=
   | [c, i] =>
     let itoks := tokens i
     match tokenize c with
-    | "prog" :: rest => answerProg "prog" rest itoks
-    | "prog-oob" :: rest => answerProg "prog-oob" rest itoks
-    | ["e2e", _, exp] => answerE2e exp itoks
+    | kind :: rest =>
+      if kind.startsWith "prog" then answerProg kind rest itoks
+      else (match rest with | [_, exp] => if kind = "e2e" then answerE2e exp itoks else "bad-case agree=0 prop=1 why=bad-case" | _ => "bad-case agree=0 prop=1 why=bad-case")
     | _ => "bad-case agree=0 prop=1 why=bad-case"
   | _ => "bad-line agree=0 prop=1 why=bad-line"
 
